@@ -107,6 +107,14 @@ def raw_selectors():
         for text in ('p:%s("ab" /* "cd" */, "zz")', 'p:%s("ab", /* cd */ "zz")', 'p:%s( "ab" /* \'cd\' , x */ , zz )', 'p:%s(ab,zz)', "p:%s('ab'/* cd */,/* \"cd\" */'zz')",
                      'p:%s(\n"ab"\n,\n"zz"\n)', 'p:%s("ab" , /* a, "cd", b */ "zz")'):
             out.append((ast, text % name))
+    # every search text also written as a bare identifier with its non-identifier characters escaped (what escape() would produce): the
+    # value is the same text, quote characters included
+    from ..ref import ident
+    for term in SEARCH:
+        if term:
+            sp = ident.serialize_ident(term)
+            out.append(((S.cx(S.cp(S.T('p'), cont(False, (term,)))),), 'p:-soup-contains(%s)' % sp))
+            out.append(((S.cx(S.cp(S.T('p'), cont(True, (term, 'zz')))),), 'p:-soup-contains-own( %s , zz)' % sp))
     return out
 
 
